@@ -29,6 +29,19 @@ T = {
     # a return to a pushed address)
     "push_rax": (1, "push", "Push"), "pop_rax": (1, "pop", "Pop"), "pop_rcx": (1, "pop", "Pop"),
 }
+# register-only instructions of the remaining supported mnemonics (they always complete): every mnemonic occurs in programs, so
+# that "hooks of other mnemonics are never invoked" is exercised over all pairs
+MORE = {
+    "and_rr": ("4821d8", "And"), "imul_rr": ("480fafc3", "Imul"), "cdq": ("99", "Cdq"), "cdqe": ("4898", "Cdqe"), "cqo": ("4899", "Cqo"),
+    "cwd": ("6699", "Cwd"), "cld": ("fc", "Cld"), "cmovae_rr": ("480f43c3", "Cmovae"), "cmove_rr": ("480f44c3", "Cmove"),
+    "cmovne_rr": ("480f45c3", "Cmovne"), "lea_rr": ("488d041b", "Lea"), "movzx_rr": ("0fb6c3", "Movzx"), "movsxd_rr": ("4863c3", "Movsxd"),
+    "mul_r": ("48f7e3", "Mul"), "neg_r": ("48f7d8", "Neg"), "not_r": ("48f7d0", "Not"), "setb_r": ("0f92c0", "Setb"), "sete_r": ("0f94c0", "Sete"),
+    "setne_r": ("0f95c0", "Setne"), "shl_r1": ("48d1e0", "Shl"), "shr_r1": ("48d1e8", "Shr"), "adc_rr": ("4811d8", "Adc"), "cpuid": ("0fa2", "Cpuid"),
+    "endbr64": ("f30f1efa", "Endbr64"), "movd_xr": ("660f6ec0", "Movd"), "xorps_xx": ("0f57c1", "Xorps"), "movups_xx": ("0f10c1", "Movups"),
+}
+for _k, (_h, _m) in MORE.items():
+    T[_k] = (len(_h) // 2, "plain", _m)
+ALL_MNEMONICS = sorted({v[2] for v in T.values() if v[2]} | set(CCM.values()) | {"Div", "Idiv", "Lea", "Int1"})
 
 
 class Program:
@@ -99,6 +112,7 @@ class Program:
         if t == "push_rax": return b"\x50"
         if t == "pop_rax": return b"\x58"
         if t == "pop_rcx": return b"\x59"
+        if t in MORE: return bytes.fromhex(MORE[t][0])
         raise ValueError(t)
 
 
@@ -106,7 +120,7 @@ def random_program(rng, n, allow=("plain", "jmp", "jcc", "call", "ret"), fault_p
     """a random program of n instructions; branch targets are instruction starts or the code end.
     call_rax / jmp_rax are emitted as `mov rax, <target>` + the indirect instruction."""
     insns = []
-    plain = ["nop", "mov_rax", "mov_rcx", "inc_rcx", "dec_rcx", "cmp_rax", "cmp_rcx", "xor_eax", "test_rcx", "add_rax", "sub_rax"]
+    plain = ["nop", "mov_rax", "mov_rcx", "inc_rcx", "dec_rcx", "cmp_rax", "cmp_rcx", "xor_eax", "test_rcx", "add_rax", "sub_rax"] * 2 + sorted(MORE)
     pend_fix = []     # (index of mov_rax, index of target instruction) for indirect transfers
     while len(insns) < n:
         k = len(insns)
